@@ -112,6 +112,8 @@ def run_group(group, out):
     impl = group['impl']
     n = 0
     kw = dict(http_compression=group['compression'], compression_threshold=group['threshold'])
+    if group.get('buf'):
+        kw['max_http_buffer_size'] = group['buf']      # a limit on what the server accepts, smaller than its responses
     w = peer.make_world(impl, server_kwargs=kw)
     try:
         r = peer.open_polling(w)
@@ -134,7 +136,7 @@ def run_group(group, out):
                     {'impl': impl, 'kind': kind, 'trigger': trig},
                     '[%s compression=%s threshold=%d j=%r AE=%r payload=%r] %s'
                     % (impl, group['compression'], group['threshold'], j, ae, payloads, text),
-                    {'impl': impl, 'compression': group['compression'], 'threshold': group['threshold'],
+                    {'impl': impl, 'compression': group['compression'], 'threshold': group['threshold'], 'buf': group.get('buf'),
                      'case': [payloads, j, ae]}, weight=(0, sum(len(x) for x in payloads))))
             if not g.done:
                 break
@@ -146,7 +148,7 @@ def run_group(group, out):
                         out.append(report.Violation(
                             {'impl': impl, 'kind': kind, 'trigger': 'encoding_ack'},
                             '[%s compression=%s threshold=%d AE=%r %s acknowledgement] %s' % (impl, group['compression'], group['threshold'], ae, what, text),
-                            {'impl': impl, 'compression': group['compression'], 'threshold': group['threshold'],
+                            {'impl': impl, 'compression': group['compression'], 'threshold': group['threshold'], 'buf': group.get('buf'),
                              'case': [payloads, j, ae]}, weight=(0, 1)))
         # a JSONP poll answered during an upgrade handshake (a lone NOOP), with and without compression on offer
         if sid in w.live_sids():
@@ -162,7 +164,7 @@ def run_group(group, out):
                         {'impl': impl, 'kind': kind, 'trigger': 'jsonp_mid_upgrade'},
                         '[%s compression=%s threshold=%d j=3 AE=%r poll during an upgrade handshake] %s'
                         % (impl, group['compression'], group['threshold'], ae, text),
-                        {'impl': impl, 'compression': group['compression'], 'threshold': group['threshold'],
+                        {'impl': impl, 'compression': group['compression'], 'threshold': group['threshold'], 'buf': group.get('buf'),
                          'case': [[''], 3, ae]}, weight=(0, 1)))
         # a poll that is answered with no packets at all (released by the client's own CLOSE while it was waiting): the
         # client receives the payload of zero packets
@@ -185,7 +187,7 @@ def run_group(group, out):
                         {'impl': impl, 'kind': kind, 'trigger': 'empty_poll'},
                         '[%s compression=%s threshold=%d j=%r AE=%r poll released with no packets by the CLOSE the client posted] %s'
                         % (impl, group['compression'], group['threshold'], j2, ae, text),
-                        {'impl': impl, 'compression': group['compression'], 'threshold': group['threshold'],
+                        {'impl': impl, 'compression': group['compression'], 'threshold': group['threshold'], 'buf': group.get('buf'),
                          'case': [[], j2, ae]}, weight=(0, 0)))
         # compression switched off on the running server (http_compression is a public attribute): from then on nothing is
         # compressed, whatever the threshold and the offer
@@ -203,7 +205,7 @@ def run_group(group, out):
                             {'impl': impl, 'kind': kind, 'trigger': 'compression_switched_off'},
                             '[%s threshold=%d AE=gzip, deflate poll after http_compression was set to False on the running server] %s'
                             % (impl, group['threshold'], text),
-                            {'impl': impl, 'compression': group['compression'], 'threshold': group['threshold'],
+                            {'impl': impl, 'compression': group['compression'], 'threshold': group['threshold'], 'buf': group.get('buf'),
                              'case': [[], None, 'gzip']}, weight=(0, 0)))
                 finally:
                     w.server.http_compression = True
@@ -223,7 +225,7 @@ def run_group(group, out):
                     {'impl': impl, 'kind': kind, 'trigger': 'encoding_refusal'},
                     '[%s compression=%s threshold=%d AE=%r refusal of a POST with an undefined packet type, in a sequence of such refusals] %s'
                     % (impl, group['compression'], group['threshold'], ae, text),
-                    {'impl': impl, 'compression': group['compression'], 'threshold': group['threshold'],
+                    {'impl': impl, 'compression': group['compression'], 'threshold': group['threshold'], 'buf': group.get('buf'),
                      'case': [[], None, ae]}, weight=(0, 0)))
     finally:
         w.teardown()
@@ -274,6 +276,11 @@ def groups(ctx):
                             cases.append((['a' * (L - 1)], j, ae))
                             cases.append((['é' * max(0, (L - 1) // 2)], j, ae))
                     gs.append({'impl': impl, 'compression': comp, 'threshold': thr, 'cases': cases})
+    # an inbound size limit below the compression threshold has no say in what is compressed
+    for impl in ('sync', 'async'):
+        for L, thr, buf in ((64, 1024, 32), (200, 256, 100), (300, 256, 100)):
+            cases = [(['a' * (L - 1)], j, ae) for ae in ('gzip', 'deflate, gzip') for j in (None, 1)]
+            gs.append({'impl': impl, 'compression': True, 'threshold': thr, 'buf': buf, 'cases': cases})
     return gs
 
 
@@ -312,7 +319,7 @@ def run(ctx):
 def replay(ctx, payload):
     r = report.unbytes(payload['replay'])
     out = []
-    g = {'impl': r['impl'], 'compression': r['compression'], 'threshold': r['threshold'],
+    g = {'impl': r['impl'], 'compression': r['compression'], 'threshold': r['threshold'], 'buf': r.get('buf'),
          'cases': [tuple(r['case'])] if r['case'][0] else []}      # no payloads: the epilogue probes of run_group alone
     run_group(g, out)
     for v in out:
